@@ -40,7 +40,7 @@ def pratt_table(F, R, rule="T-PRATT"):
     tabs = pratt.extract_pratt_tables(F)
     R.count(rule + ".tables", len(tabs))
     if len(tabs) != 1:
-        R.ob(rule, "single-table", False, "", "expected exactly one PrattParser table, found %d" % len(tabs))
+        R.ob(rule, "single-table", False, "", "expected exactly one PrattParser table, found %d" % len(tabs), undecided=True)
         return None
     f, levels = tabs[0]
     R.fn(f["path"])
@@ -70,10 +70,10 @@ def rule_maps(F, R, rule="S-3WAY"):
     for f, m in table.find_matches(F, scrut_ty=RULE_ENUM):
         heads = {}
         for arm in m["arms"]:
-            h = table.head(arm["body"])
+            h = table.head(arm["body"], unwrap_ok=True)
             for alt in table.pat_alternatives(arm["pat"]):
                 ph = table.pat_head(alt)
-                if ph[0] == "variant" and h[0] == "variant":
+                if ph[0] == "variant" and h[0] == "variant" and not h[1].endswith(("Option::None", "Result::Err")):
                     heads[ph[1].rsplit("::", 1)[-1]] = h[1]
         if heads and all(v.startswith(BINOP + "::") for v in heads.values()):
             found["bin"].append((f, m, heads))
@@ -102,7 +102,7 @@ def check(F, R, Gm):
              "grammar unary_op alternatives %s vs Pratt prefix rules %s" % (sorted(gu), sorted(t_pre)))
     for kind, ref, gl in (("bin", RULE_TO_OP, gb), ("un", RULE_TO_UNOP, gu)):
         ms = maps[kind]
-        R.ob("S-3WAY", "map-%s:unique" % kind, len(ms) == 1, "", "expected one Rule->%s mapping match, found %d" % (kind, len(ms)))
+        R.ob("S-3WAY", "map-%s:unique" % kind, len(ms) == 1, "", "expected one Rule->%s mapping match, found %d" % (kind, len(ms)), undecided=True)
         for f, m, heads in ms:
             R.fn(f["path"])
             where = F.loc(f, m)
@@ -222,7 +222,9 @@ def h_implicit(F, R):
                             a2 = free_locals(rhs["args"][2])
                             ok_fold = acc["id"] in a1 and acc["id"] not in a2 and bool(loopvars & a2) and not (loopvars & a1)
                             detail = "fold step %s" % sexp(n)[:160]
-            R.ob("H-IMPLICIT", "left-fold", ok_fold, where, "implicit multiplication must fold left (accumulator as left operand): " + detail)
+            # the fold is recognised as a `for` loop; an iterator `fold` is not (undecided).  CONVERT-EXP decides the reading of
+            # `(a)(b)c`, `2x`, `2(x + 1)` by evaluating the converter
+            R.ob("H-IMPLICIT", "left-fold", ok_fold, where, "implicit multiplication must fold left (accumulator as left operand): " + detail, undecided=True)
             # the iteration order of the operands is the source order (no rev/sort)
             bad = [n["name"] for n in walk(arm["body"]) if n.get("k") == "MCall" and n["name"] in ("rev", "sort", "sort_by", "reverse", "skip", "step_by", "dedup")]
             R.ob("H-IMPLICIT", "source-order", not bad, where, "operand order adapters: %s" % bad)
@@ -265,7 +267,7 @@ def h_intoexp(F, R):
                 b = [pat_binds(s) for s in subs]
                 if all(len(x) == 1 for x in b):
                     ids = [x[0][0] for x in b]
-        R.ob("H-INTOEXP", "operands-bound", ids is not None, where, "could not find the (op, lhs, rhs) bindings of PreExp::BinaryOperation")
+        R.ob("H-INTOEXP", "operands-bound", ids is not None, where, "could not find the (op, lhs, rhs) bindings of PreExp::BinaryOperation", undecided=True)
         for v in F.variants(BINOP):
             if v not in heads:
                 R.ob("H-INTOEXP", "binop:" + v, False, where, "BinOp::%s has no arm building an Exp form" % v)
